@@ -42,7 +42,7 @@ def generate(seed: int, tier: str, prop: str) -> dict:
     rng = Streams(seed).get('gen')
     r = rng.random()
     if prop == 'C05':
-        base = 'hreal' if r < 0.35 else ('hboundary' if r < 0.85 else 'hlow')
+        base = 'hreal' if r < 0.3 else ('hboundary' if r < 0.65 else ('hboundary2' if r < 0.87 else 'hlow'))
     else:
         base = 'hreal' if r < 0.6 else ('hboundary' if r < 0.8 else 'hlow')
     cfg = {'base': base, 'hard': rng.random() < 0.3 and base != 'hlow'}
@@ -53,12 +53,32 @@ def generate(seed: int, tier: str, prop: str) -> dict:
                                      rng.randrange(span // 32, span * 3)])
         if cfg['hard']:
             cfg['elapsed'] = max(cfg['elapsed'], span // 2)
+    if base == 'hboundary2':
+        span = 1_209_600
+        cfg['elapsed'] = rng.choice([span, span * 2, span // 4, span // 2 + 1])
+        cfg['elapsed2'] = rng.choice([span // 16, span // 3, span - 1, span * 3])
+        if cfg['hard']:
+            cfg['elapsed'] = max(cfg['elapsed'], span // 2)
+            cfg['elapsed2'] = max(cfg['elapsed2'], span // 2)
     if base == 'hlow':
         n_ops = rng.randint(4, 9)
     else:
         n_ops = rng.randint(8, 30 if tier == 'quick' else 60)
     ops = []
-    if base == 'hboundary' and rng.random() < 0.7:
+    if base == 'hboundary2':
+        # both tips are one block below the boundary: boundary blocks on the head's branch (stored index 0) and on the
+        # other branch (stored index 1), honest and forged
+        for _ in range(rng.randint(2, 5)):
+            if rng.random() < 0.6:
+                m = gen_mine(rng)
+                m['tip'] = rng.choice([0, 1, 1])
+                ops.append(m)
+            else:
+                kind = rng.choice(['target_parent_at_boundary', 'target_elapsed_off_by_one', 'target_float', 'target_plus_1'])
+                ops.append({'op': 'offer', 'kind': kind, 'tip': rng.choice([0, 1, 1]), 'a': rng.randrange(1000),
+                            'b': rng.randrange(1000), 'dt': rng.choice([1, 60, 600, rng.randrange(1, 50000)]),
+                            'clock': 0, 'via': rng.choice(['memory', 'bytes'])})
+    elif base == 'hboundary' and rng.random() < 0.7:
         # approach the retarget boundary linearly, then put forks and boundary forgeries right on it
         k = 2 + cfg['k'] % 5
         for _ in range(k - 1):
